@@ -47,6 +47,12 @@ def decode? (n : Nat) (bs : List Nat) : Option Res :=
 /-- Total version for callers that pass a literal prefix size in 1..8. -/
 def decode (n : Nat) (bs : List Nat) : Res := (decode? n bs).getD .endOf
 
+/-- `decode(size, buf)` for a `Buf` made of several chunks (`Chain`, `BufList`, a rope of received pieces):
+    the function reads through `Buf::get_u8`, which hands out the bytes of the chunks in order — what it
+    sees is their concatenation, wherever the cuts are (`C15_decode_chunking_independent`; engine
+    `pint decm` runs the real function over such a `Buf`). -/
+def decodeM? (n : Nat) (chunks : List (List Nat)) : Option Res := decode? n chunks.flatten
+
 /-- `while remaining >= 128 { write(remaining % 128 + 128); remaining /= 128 } write(remaining)` -/
 def encLoop (remaining : Nat) : List Nat :=
   if remaining ≥ 128 then (remaining % 128 + 128) :: encLoop (remaining / 128) else [remaining]
